@@ -28,7 +28,7 @@ CLAIMS = {
               'Live-side premises, checked under this property as well: RaftLog::append_and_apply journals a record only if the reference accepts it (rejected => nothing changed, nothing buffered) and buffers exactly enc(rec) for an accepted one; '
               'the flush worker batches every Write it receives and writes the batch to the newest file in request order. '
               'Lemma over the contracts (unit U11, no code): for a journal older ++ [State(h)] ++ newer whose chunk-head record carries the state at rotation (h == fold(init, older), proved under C11), replaying from that head from ANY starting state yields fold(init, whole journal) — so deleting older chunks and restarting reproduces the live state.  What is NOT decided: the journal-on-disk == journal-written link itself (C04+C11+file-system semantics) and the completeness half of the codec.'),
-        note=TRUST + ' ENVIRONMENT ASSUMPTION inside the replay loop (an explicit `assume`, listed in the evidence): each replayed record was accepted when it was journaled and magnitudes hold. RaftLogWAL::new is under contract (rule E24; only the thread start itself is assumed); RaftLog::load_chunk_ids is under contract over abstract file names (rule E23: read_dir/OsString/str parsing replaced by stand-ins; the directory listing at open time and the parser are uninterpreted, sort() is an assumed sorted permutation).',
+        note=TRUST + ' ENVIRONMENT ASSUMPTIONS inside the replay loop (two explicit `assume`s, listed in the evidence): cached bytes stay below 2^64; a State record other than the very first record replayed repeats the `last` in force when it was written (chunk heads / save_user_data). Acceptance of a replayed record is NOT assumed (a refused record makes open return the error), nor index magnitudes (law of the user types), nor legality of the first record (store provably empty). RaftLogWAL::new is under contract (rule E24; only the thread start itself is assumed); RaftLog::load_chunk_ids is under contract over abstract file names (rule E23: read_dir/OsString/str parsing replaced by stand-ins; the directory listing at open time and the parser are uninterpreted, sort() is an assumed sorted permutation).',
         technique='Verus loop invariants over the chunk-loading loop + shared apply contract, on extracted code',
         design='5 C02',
     ),
